@@ -20,7 +20,7 @@ CONFIGS = [
 ]
 
 
-def run_history(ctx, rng, conf_name, conf, length, hist_id):
+def run_history(ctx, rng, conf_name, conf, length, hist_id, check_post=False):
     sim = davsim.Sim(ctx, conf)
     known = []
     reqs = []
@@ -44,29 +44,134 @@ def run_history(ctx, rng, conf_name, conf, length, hist_id):
                              {"config": conf_name, "history": [(u, {k: v for k, v in x.items()}) for u, x in reqs]}, diffs[:3],
                              {"status": ans["status"] if ans else None})
                 # oracle: does the real server itself contradict the object model?  (independent of the Lean model)
-                oracle(ctx, sim, reqs, conf_name)
+                oracle(ctx, conf, reqs, conf_name)
                 return False
+        if check_post:
+            # the postcondition oracle runs on clean histories too (it must be quiet where the property holds)
+            oracle(ctx, conf, reqs, conf_name)
     finally:
         sim.close()
     return True
 
 
-def oracle(ctx, sim, reqs, conf_name):
-    """model-independent sanity of what the real server shows after the history: every PROPFIND listing agrees
-    with the storage API dump, and both back-ends agree (checked by the caller running all configurations)."""
-    d = sim.real_dump()
-    for e in d:
-        if not e["path"]:
-            continue
-        st, hd, text = sim.app.request("PROPFIND", "/" + "/".join(e["path"]) + "/", davsim.PROPFIND_BODY, login="u:pw", HTTP_DEPTH="1")
-        if st != 207:
-            continue
-        ms, order, _ = davsim.parse_multistatus(text)
-        listed = sorted(h.rstrip("/").rsplit("/", 1)[1] for h in order if h.rstrip("/") != "/" + "/".join(e["path"]))
-        expect = sorted([i["href"] for i in e["items"]] + [x["path"][-1] for x in d if x["path"][:-1] == e["path"] and x["path"]])
-        if listed != expect:
-            ctx.violation("PROPFIND Depth 1 of /%s lists %s but the storage API holds %s" % ("/".join(e["path"]), listed, expect),
-                          {"config": conf_name, "history": reqs})
+def oracle(ctx, conf, reqs, conf_name):
+    """Failing-input search on the implementation alone (no Lean model involved): the history is replayed on a
+    fresh application and every request is checked against the postcondition the DAV object model gives it,
+    using storage-API dumps before and after: an acknowledged write changes exactly its target (a replaced
+    collection holds exactly the uploaded objects), everything else - and everything on a refused or read-only
+    request - stays as it was; PROPFIND Depth 1 shows what the storage holds."""
+    fresh = davsim.Sim(ctx, conf)
+    fresh.sid = None
+    try:
+        for k, (user, r) in enumerate(reqs):
+            before = {tuple(e["path"]): e for e in fresh.real_dump()}
+            obs, _, _ = fresh.step(r, user, compare_store=False)
+            after = {tuple(e["path"]): e for e in fresh.real_dump()}
+            problem = postcondition(r, user, obs["status"], before, after)
+            if problem:
+                ctx.violation("%s %s answered %d but %s" % (r["method"], "/".join(r["path"]), obs["status"], problem),
+                              {"config": conf_name, "history": reqs[:k + 1]})
+                return
+        d = fresh.real_dump()
+        for e in d:
+            if not e["path"]:
+                continue
+            st, hd, text = fresh.app.request("PROPFIND", "/" + "/".join(e["path"]) + "/", davsim.PROPFIND_BODY, login="u:pw", HTTP_DEPTH="1")
+            if st != 207:
+                continue
+            ms, order, _ = davsim.parse_multistatus(text)
+            listed = sorted(davsim.canon_href(h.rstrip("/").rsplit("/", 1)[1]) for h in order if h.rstrip("/") != "/" + "/".join(e["path"]))
+            expect = sorted([i["href"] for i in e["items"]] + [x["path"][-1] for x in d if x["path"][:-1] == e["path"] and x["path"]])
+            if listed != expect:
+                ctx.violation("PROPFIND Depth 1 of /%s lists %s but the storage API holds %s" % ("/".join(e["path"]), listed, expect),
+                              {"config": conf_name, "history": reqs})
+    finally:
+        fresh.close()
+
+
+def _items(e):
+    return {i["href"]: (i["uid"], i["etag_raw"]) for i in e["items"]}
+
+
+def postcondition(r, user, status, before, after):
+    """None, or what is wrong with `after` given `before` and the acknowledged request"""
+    # the principal collection of the user is created on the fly by any authenticated request
+    if user and (user,) not in before and (user,) in after:
+        before = dict(before)
+        before[(user,)] = {"path": [user], "tag": "", "props": [], "items": []}
+    m = r["method"]
+    target = tuple(r["path"])
+    ok = status < 300
+
+    def unchanged_except(paths_prefix=(), item=None):
+        for p in set(before) | set(after):
+            if any(p[:len(q)] == q for q in paths_prefix):
+                continue
+            if (p in before) != (p in after):
+                return "collection /%s %s" % ("/".join(p), "appeared" if p in after else "disappeared")
+            b, a = _items(before[p]), _items(after[p])
+            if item and p == item[0]:
+                b.pop(item[1], None)
+                a.pop(item[1], None)
+            if b != a:
+                return "members of /%s changed: %s -> %s" % ("/".join(p), sorted(b), sorted(a))
+            if m != "PROPPATCH" and (before[p]["tag"], before[p]["props"]) != (after[p]["tag"], after[p]["props"]):
+                return "properties of /%s changed" % "/".join(p)
+        return None
+    if not ok or m in ("GET", "PROPFIND", "MULTIGET"):
+        return unchanged_except()
+    if m == "PUT" and target in after:
+        # the target is a collection afterwards: it was replaced, or created from the body (a PUT on a free name
+        # below an untagged collection does that; below a tagged one it stores an item, trailing slash or not)
+        got = sorted(u for u, _ in _items(after[target]).values())
+        want = sorted(set(o["uid"] for o in r["objs"]))
+        if got != want:
+            return "the collection holds objects with UIDs %s, the upload had %s" % (got, want)
+        return unchanged_except(paths_prefix=(target,))
+    if m == "PUT":
+        coll, href = target[:-1], target[-1]
+        if coll not in after or href not in _items(after[coll]):
+            return "the item does not exist afterwards"
+        if _items(after[coll])[href][0] not in [o["uid"] for o in r["objs"]] and r["objs"]:
+            return "the stored item has UID %s" % _items(after[coll])[href][0]
+        return unchanged_except(item=(coll, href))
+    if m == "DELETE":
+        if r.get("as_collection"):
+            if any(p[:len(target)] == target for p in after):
+                return "the collection or something below it still exists"
+            return unchanged_except(paths_prefix=(target,))
+        coll, href = target[:-1], target[-1]
+        if coll in after and href in _items(after[coll]):
+            return "the item still exists"
+        return unchanged_except(item=(coll, href))
+    if m == "MOVE":
+        sc, sh = target[:-1], target[-1]
+        dst = tuple(r["dest"])
+        dc, dh = dst[:-1], dst[-1]
+        if dst == target:
+            return unchanged_except()
+        if sc in after and sh in _items(after[sc]):
+            return "the source still exists"
+        if dc not in after or dh not in _items(after[dc]):
+            return "the destination does not exist"
+        if sc in before and sh in _items(before[sc]) and _items(after[dc])[dh][0] != _items(before[sc])[sh][0]:
+            return "the destination holds UID %s, the source had %s" % (_items(after[dc])[dh][0], _items(before[sc])[sh][0])
+        # both names excepted
+        b2 = {p: dict(e, items=[i for i in e["items"] if (p, i["href"]) not in ((sc, sh), (dc, dh))]) for p, e in before.items()}
+        a2 = {p: dict(e, items=[i for i in e["items"] if (p, i["href"]) not in ((sc, sh), (dc, dh))]) for p, e in after.items()}
+        for p in set(b2) | set(a2):
+            if (p in b2) != (p in a2) or _items(b2[p]) != _items(a2[p]):
+                return "something besides source and destination changed in /%s" % "/".join(p)
+        return None
+    if m in ("MKCOL", "MKCALENDAR"):
+        if target not in after:
+            return "the collection does not exist afterwards"
+        if _items(after[target]):
+            return "the new collection is not empty"
+        return unchanged_except(paths_prefix=(target,))
+    if m == "PROPPATCH":
+        return unchanged_except()
+    return None
 
 
 def run(ctx):
@@ -85,4 +190,4 @@ def run(ctx):
         for name, conf in confs:
             rng.setstate(seed_state)
             rng.randint(5, 40)
-            run_history(ctx, rng, name, conf, length, h)
+            run_history(ctx, rng, name, conf, length, h, check_post=(name == confs[0][0]))
